@@ -3,7 +3,8 @@
 (* The extended-JSON cell codec of checkpoints (stream / unstream).        *)
 (* A typed cell is a record                                                *)
 (*   [kind, y, m, d, h, mi, s, us, aware, off, txt]                        *)
-(* kind: "null" "int" "str" "bool" "dec" "date" "time" "dt" "dur";         *)
+(* kind: "null" "int" "float" "str" "bool" "dec" "date" "time" "dt" "dur"  *)
+(* ("float": a plain JSON number inside an array / object / any cell);     *)
 (* off = UTC offset in seconds (may be negative), txt = code points of the *)
 (* text form for int/str/dec/dur (unused fields are 0 / <<>>).             *)
 (* What is written for it:                                                 *)
